@@ -53,6 +53,7 @@ def gen_plan(seed, i, tier):
             s.pop('lockednorm', None)
             shapes.append(s)
         init = {'settle': True, 'builder': {'version': ver, 'salt': rng.below(1 << 30), 'nodes': rng.below(5), 'shapes': shapes}}
+        hist.maybe_attach(rng, init, 0.25, len(shapes))
 
     def conv():
         return {'op': 'Convert', 'headParts': dyn and rng.chance(0.8), 'removeParallax': rng.chance(0.7), 'calcBounds': rng.chance(0.7),
